@@ -89,6 +89,11 @@ func (eng *Engine) runUnit(us UnitSpec) (res *UnitResult) {
 				o.Name += "@interfere"
 			}
 		}
+		if len(us.Inline) > 0 {
+			for _, o := range ex.obls {
+				o.Name += "@inline"
+			}
+		}
 		res.Obls = ex.obls
 		res.Notes = append(res.Notes, ex.notes...)
 		res.Assumed = sortedKeysB(ex.assumedUsed)
